@@ -3,6 +3,7 @@ Seven disciplines, DESIGN.md §4.5."""
 from __future__ import annotations
 
 import ast
+import re
 import re._parser as sre_parse          # type: ignore
 import re._constants as sre_c           # type: ignore
 from typing import Dict, List, Optional, Set, Tuple
@@ -20,32 +21,69 @@ REPO_EXC = ("NorminetteError", "CParsingError", "MaybeInfiniteLoop", "Unexpected
 
 # =========================================================================== R-5.1
 def _tuple_arity_sites(prog):
-    """function key -> (arity, example site) for functions whose result is tuple-unpacked."""
+    """function key -> (arity, example site) for functions whose result is tuple-unpacked (directly, through a local
+    bound to the call, or read by constant index)."""
+    from ..dataflow import resolve_local
     cg = callgraph(prog)
     need: Dict[str, Tuple[int, ast.AST]] = {}
-    for c in cg.calls:
-        p = parent(c.node)
-        if isinstance(c.node, ast.Call) and isinstance(p, ast.Assign) and p.value is c.node \
-                and len(p.targets) == 1 and isinstance(p.targets[0], ast.Tuple):
-            n = len(p.targets[0].elts)
-            for t in c.targets:
-                if t.name in ("__init__", "__new__"):
-                    continue
-                need.setdefault(t.key, (n, p))
-    # ret, read = result   in Registry.run_rules stands for every Primary.run
+    by_node = {id(c.node): c for c in cg.calls if isinstance(c.node, ast.Call)}
+
+    def is_call(v) -> bool:
+        return isinstance(v, ast.Call)
+
+    def add(call_node, n, site):
+        c = by_node.get(id(call_node))
+        if c is None:
+            return
+        for t in c.targets:
+            if t.name in ("__init__", "__new__"):
+                continue
+            if t.key not in need or need[t.key][0] < n:
+                need[t.key] = (n, site) if t.key not in need else (max(n, need[t.key][0]), need[t.key][1])
+
+    for fn in prog.fns:
+        for p in walk_fn(fn.node):
+            if isinstance(p, ast.Assign) and len(p.targets) == 1 and isinstance(p.targets[0], (ast.Tuple, ast.List)) \
+                    and not any(isinstance(e, ast.Starred) for e in p.targets[0].elts):
+                n = len(p.targets[0].elts)
+                v = p.value
+                if isinstance(v, ast.Name):
+                    v = resolve_local(fn, v, is_call) or v
+                if isinstance(v, ast.Call):
+                    add(v, n, p)
+            elif isinstance(p, ast.Subscript) and isinstance(p.ctx, ast.Load) and isinstance(p.slice, ast.Constant) \
+                    and isinstance(p.slice.value, int) and p.slice.value >= 0 and isinstance(p.value, ast.Name):
+                v = resolve_local(fn, p.value, is_call)
+                if isinstance(v, ast.Call):
+                    # res = f(...); res[k]: at least k + 1 components; 2 is the arity of the tree's (bool, int) results
+                    add(v, max(2, p.slice.value + 1), p)
+    # the result of <rule>.run(context) in Registry.run_rules is unpacked into two: stands for every Primary.run
     rr = prog.fn("registry.py::Registry.run_rules")
-    stands = False
+    run_calls = [n for n in walk_fn(rr.node) if isinstance(n, ast.Call) and isinstance(n.func, ast.Attribute) and n.func.attr == "run"]
+    holders = {nm for nm, bs in _all_bindings(rr).items()
+               if any(k in ("assign", "walrus") and v is not None and any(v is c or _inside_expr(c, v) for c in run_calls)
+                      for k, _, v, _ in bs)}
+    stands = None
     for n in walk_fn(rr.node):
-        if isinstance(n, ast.Assign) and isinstance(n.targets[0], ast.Tuple) and len(n.targets[0].elts) == 2 \
-                and "result" in text(n.value):
-            stands = True
-            for c in registry_model(prog).primaries:
-                m = prog.method(c.name, "run")
-                if m is not None:
-                    need.setdefault(m.key, (2, n))
-    if not stands:
-        raise AnalysisError("anchor vanished: 'ret, read = result ...' in Registry.run_rules")
+        if isinstance(n, ast.Assign) and len(n.targets) == 1 and isinstance(n.targets[0], (ast.Tuple, ast.List)) \
+                and len(n.targets[0].elts) == 2:
+            if any(isinstance(x, ast.Name) and x.id in holders for x in ast.walk(n.value)) \
+                    or any(x is c for x in ast.walk(n.value) for c in run_calls):
+                stands = n
+        elif isinstance(n, ast.Subscript) and isinstance(n.ctx, ast.Load) and isinstance(n.value, ast.Name) and n.value.id in holders \
+                and isinstance(n.slice, ast.Constant) and n.slice.value in (0, 1):
+            stands = stands or n
+    if stands is None:
+        raise AnalysisError("anchor vanished: the result of rule.run(context) is no longer unpacked in Registry.run_rules")
+    for c in registry_model(prog).primaries:
+        m = prog.method(c.name, "run")
+        if m is not None:
+            need.setdefault(m.key, (2, stands))
     return need
+
+
+def _inside_expr(node, root) -> bool:
+    return any(x is node for x in ast.walk(root))
 
 
 def _returns_none_explicitly(fn: Fn) -> bool:
@@ -107,7 +145,7 @@ def rule_ret(run, prog):
 def _ok_return_value(v, ar, need, cg, fn) -> bool:
     if v is None:
         return False
-    if isinstance(v, ast.Tuple):
+    if isinstance(v, (ast.Tuple, ast.List)):
         return len(v.elts) == ar and not any(isinstance(e, ast.Starred) for e in v.elts)
     if isinstance(v, ast.IfExp):
         return _ok_return_value(v.body, ar, need, cg, fn) and _ok_return_value(v.orelse, ar, need, cg, fn)
@@ -193,6 +231,24 @@ def exc_bases(prog, name: str) -> Set[str]:
     return out
 
 
+def _is_exception_class(prog, name: str) -> bool:
+    """A repository class that derives (through repository classes) from a builtin exception."""
+    import builtins
+    seen, todo = set(), [name]
+    while todo:
+        c = todo.pop()
+        if c in seen:
+            continue
+        seen.add(c)
+        if c in prog.classes:
+            todo.extend(prog.classes[c].bases)
+        else:
+            b = getattr(builtins, c, None)
+            if isinstance(b, type) and issubclass(b, BaseException):
+                return True
+    return False
+
+
 def handler_names(h: ast.ExceptHandler) -> List[str]:
     if h.type is None:
         return ["BaseException"]
@@ -211,9 +267,66 @@ def caught_at(prog, node, exc: str, stop_fn_node) -> bool:
         if isinstance(a, ast.Try) and any(cur is s for s in a.body):
             for h in a.handlers:
                 if any(nm in bases for nm in handler_names(h)):
+                    if _handler_reraises_same(h):
+                        break                  # first matching clause wins; it lets the exception continue
+                    return True
+        if isinstance(a, (ast.With, ast.AsyncWith)) and any(cur is s for s in a.body):
+            # with contextlib.suppress(X, ...):
+            for it in a.items:
+                ce = it.context_expr
+                if isinstance(ce, ast.Call) and text(ce.func).split(".")[-1] == "suppress" \
+                        and any(text(x).split(".")[-1] in bases for x in ce.args):
                     return True
         cur = a
     return False
+
+
+def _handler_reraises_same(h: ast.ExceptHandler) -> bool:
+    """The clause re-raises the exception it caught (bare `raise`, or `raise <its own name>`) on some path."""
+    todo = list(h.body)
+    while todo:
+        n = todo.pop()
+        if isinstance(n, (ast.FunctionDef, ast.AsyncFunctionDef, ast.ClassDef, ast.Lambda)):
+            continue
+        if isinstance(n, ast.Raise) and (n.exc is None or (isinstance(n.exc, ast.Name) and h.name and n.exc.id == h.name)):
+            return True
+        if isinstance(n, ast.Try):
+            # a bare raise inside a nested handler re-raises that handler's exception, not ours
+            todo.extend(n.body + n.orelse + n.finalbody)
+            for h2 in n.handlers:
+                todo.extend(x for x in h2.body if isinstance(x, ast.Raise) and isinstance(x.exc, ast.Name) and h.name and x.exc.id == h.name)
+            continue
+        todo.extend(ast.iter_child_nodes(n))
+    return False
+
+
+def _raised_classes(prog, fn: Fn, n: ast.Raise) -> List[str]:
+    """Names of the classes a `raise X` / `raise X(...)` / `raise local_variable` statement can raise ([] : a
+    re-raise of a caught exception, or not resolvable to a class)."""
+    import builtins
+    if n.exc is None:
+        return []
+    target = n.exc.func if isinstance(n.exc, ast.Call) else n.exc
+
+    def is_exc_class(cn: str) -> bool:
+        if cn in prog.classes:
+            return True
+        b = getattr(builtins, cn, None)
+        return isinstance(b, type) and issubclass(b, BaseException)
+    cn = text(target).split(".")[-1]
+    if is_exc_class(cn) and not (isinstance(target, ast.Name) and target.id in _all_bindings(fn)):
+        return [cn]
+    if isinstance(target, ast.Name):
+        out = []
+        for kind, node, v, path in _all_bindings(fn).get(target.id, []):
+            if kind in ("assign", "walrus") and path == () and v is not None:
+                for x in ([v.body, v.orelse] if isinstance(v, ast.IfExp) else [v]):
+                    t2 = x.func if isinstance(x, ast.Call) else x
+                    c2 = text(t2).split(".")[-1]
+                    if is_exc_class(c2):
+                        out.append(c2)
+        return sorted(set(out))
+    return []
 
 
 def _regex_may_match(pattern: str, flags: int, ch: str) -> bool:
@@ -289,11 +402,137 @@ def _category_has(cat, ch: str) -> bool:
 
 
 PEEKS = ("peek", "raw_peek")
+_MISS = object()
 
 
-def _peek_derived_names(fn: Fn) -> Set[str]:
-    """Names bound (transitively, by unpacking) from self.peek()/self.raw_peek() results."""
-    names: Set[str] = set()
+# --------------------------------------------------------------------------- constant value sets (flow-insensitive)
+def _project(v, path):
+    for i in path:
+        v = v[i]
+    return v
+
+
+def _iter_elements(v):
+    if isinstance(v, dict):
+        return list(v)
+    if isinstance(v, (tuple, list, frozenset, set, str, range)):
+        return list(v)
+    raise TypeError("not iterable")
+
+
+def const_values(fn: Fn, e, _depth=0, _busy=None) -> Optional[list]:
+    """The values expression *e* can take anywhere in *fn*, when they all are constants of the tree (folded module
+    tables, literals): a list, or None when some contribution is unknown.  Understands what a table-driven rewrite
+    introduces: loop / comprehension variables over a folded table (with tuple unpacking), names assigned in several
+    branches, elements of a table selected by an unknown index or key, conditional expressions, class-level constants."""
+    busy = set() if _busy is None else _busy
+    if _depth > 8:
+        return None
+    v = fold_in_fn(e, fn, default=_MISS)
+    if v is not _MISS:
+        return [v]
+
+    def rec(x):
+        return const_values(fn, x, _depth + 1, busy)
+
+    if isinstance(e, ast.Name):
+        if e.id in busy:
+            return None
+        bs = _all_bindings(fn).get(e.id)
+        if not bs:
+            return None
+        busy.add(e.id)
+        try:
+            out = []
+            for kind, node, val, path in bs:
+                if kind in ("aug", "param", "other") or val is None or path is None:
+                    return None
+                while path and kind in ("assign", "walrus") and isinstance(val, (ast.Tuple, ast.List)) \
+                        and not any(isinstance(x, ast.Starred) for x in val.elts) and path[0] < len(val.elts):
+                    val, path = val.elts[path[0]], path[1:]         # a, b = x, y
+                vals = rec(val)
+                if vals is None:
+                    return None
+                try:
+                    if kind in ("for", "comp"):
+                        for it in vals:
+                            for el in _iter_elements(it):
+                                out.append(_project(el, path))
+                    else:
+                        for x in vals:
+                            out.append(_project(x, path))
+                except (TypeError, IndexError, KeyError):
+                    return None
+            return out
+        finally:
+            busy.discard(e.id)
+    if isinstance(e, ast.NamedExpr):
+        return rec(e.value)
+    if isinstance(e, ast.IfExp):
+        a, b = rec(e.body), rec(e.orelse)
+        return None if a is None or b is None else a + b
+    if isinstance(e, ast.Subscript) and not isinstance(e.slice, ast.Slice):
+        bases = rec(e.value)
+        if bases is None:
+            return None
+        idx = rec(e.slice)
+        out = []
+        try:
+            for b in bases:
+                if idx is None:
+                    out.extend(list(b.values()) if isinstance(b, dict) else _iter_elements(b))
+                else:
+                    for i in idx:
+                        out.append(b[i])
+        except (TypeError, IndexError, KeyError):
+            return None
+        return out
+    if isinstance(e, ast.Attribute) and isinstance(e.value, ast.Name) and fn.cls is not None \
+            and e.value.id in ("self", "cls", fn.cls.name) and e.attr in fn.cls.attrs:
+        v = try_fold(fn.cls.attrs[e.attr], fn.mod, default=_MISS)
+        return None if v is _MISS else [v]
+    if isinstance(e, ast.Call) and isinstance(e.func, ast.Name) and len(e.args) >= 1 and not e.keywords \
+            and e.func.id in ("enumerate", "reversed", "sorted", "list", "tuple", "iter", "set", "frozenset"):
+        bases = rec(e.args[0])
+        if bases is None:
+            return None
+        try:
+            if e.func.id == "enumerate":
+                return [list(enumerate(_iter_elements(b))) for b in bases]
+            return [list(_iter_elements(b)) for b in bases]
+        except TypeError:
+            return None
+    if isinstance(e, ast.Call) and isinstance(e.func, ast.Attribute) and e.func.attr in ("items", "values", "keys") and not e.args:
+        bases = rec(e.func.value)
+        if bases is None or not all(isinstance(b, dict) for b in bases):
+            return None
+        return [list(getattr(b, e.func.attr)()) for b in bases]
+    if isinstance(e, ast.Call) and isinstance(e.func, ast.Attribute) and e.func.attr == "get" and 1 <= len(e.args) <= 2:
+        bases = rec(e.func.value)
+        if bases is None or not all(isinstance(b, dict) for b in bases):
+            return None
+        dflt = rec(e.args[1]) if len(e.args) == 2 else [None]
+        if dflt is None:
+            return None
+        return [x for b in bases for x in b.values()] + dflt
+    if isinstance(e, (ast.Tuple, ast.List)) and not any(isinstance(x, ast.Starred) for x in e.elts):
+        parts = [rec(x) for x in e.elts]
+        if any(p_ is None for p_ in parts):
+            return None
+        combos = [[]]
+        for p_ in parts:
+            combos = [c + [x] for c in combos for x in p_]
+            if len(combos) > 256:
+                return None
+        return [tuple(c) if isinstance(e, ast.Tuple) else c for c in combos]
+    return None
+
+
+# --------------------------------------------------------------------------- head-verification guards
+def _peek_roots(fn: Fn, g) -> Dict[str, Set[int]]:
+    """Names bound (transitively, by unpacking / iteration) from self.peek() / self.raw_peek() results ->
+    the CFG nodes where the look-up they stem from is made."""
+    names: Dict[str, Set[int]] = {}
     changed = True
     while changed:
         changed = False
@@ -307,18 +546,25 @@ def _peek_derived_names(fn: Fn) -> Set[str]:
                 tgt, val = n.target, n.iter
             if tgt is None:
                 continue
-            src = False
+            roots: Set[int] = set()
+            here = _cfg_node_of_expr(g, n)
             for c in ast.walk(val):
-                if isinstance(c, ast.Call) and isinstance(c.func, ast.Attribute) and c.func.attr in PEEKS:
-                    src = True
+                if isinstance(c, ast.Call) and isinstance(c.func, ast.Attribute) and c.func.attr in PEEKS and here is not None:
+                    roots.add(here)
                 if isinstance(c, ast.Name) and c.id in names:
-                    src = True
-            if src:
+                    roots |= names[c.id]
+            if roots:
                 for nm in _tnames(tgt):
-                    if nm not in names and nm != "_":
-                        names.add(nm)
+                    if nm == "_":
+                        continue
+                    if not roots <= names.get(nm, set()):
+                        names.setdefault(nm, set()).update(roots)
                         changed = True
     return names
+
+
+def _peek_derived_names(fn: Fn) -> Set[str]:
+    return set(_peek_roots(fn, cfg_of(fn)))
 
 
 def _tnames(t):
@@ -333,29 +579,98 @@ def _tnames(t):
 
 
 def _const_without(fn: Fn, node, ch: str, peeked: Set[str]) -> bool:
-    """Expression folds to a constant (str / container of str / dict) none of whose
-    members contains *ch*; or is built from already guarded peek-derived names and such constants."""
-    v = fold_in_fn(node, fn, default=None)
-    if v is None:
+    """Every value the expression can take is a constant (str / container of str / dict) none of whose
+    members contains *ch*; or it is built from already guarded peek-derived names and such constants."""
+    vals = const_values(fn, node)
+    if vals is None:
         if isinstance(node, ast.BinOp):
             return all(_const_without(fn, s, ch, peeked) or (isinstance(s, ast.Name) and s.id in peeked)
                        or isinstance(s, ast.Constant) and isinstance(s.value, int)
                        for s in (node.left, node.right))
         return False
-    if isinstance(v, str):
-        return ch not in v
-    if isinstance(v, dict):
-        return all(isinstance(k, str) and ch not in k for k in v)
-    if isinstance(v, (tuple, list, frozenset, set)):
-        return all(isinstance(k, str) and ch not in k for k in v)
-    return False
+
+    def free(v) -> bool:
+        if isinstance(v, str):
+            return ch not in v
+        if isinstance(v, (dict, tuple, list, frozenset, set)):
+            return all(isinstance(k, str) and ch not in k for k in v)
+        return False
+    return bool(vals) and all(free(v) for v in vals)
+
+
+def _is_none(e) -> bool:
+    return isinstance(e, ast.Constant) and e.value is None
+
+
+def _regex_of_call(fn: Fn, c):
+    """[RegexConst, ...] a `<pattern>.match(...)` / `re.match(<pattern>, ...)` call (also fullmatch) can use, else None."""
+    if not (isinstance(c, ast.Call) and isinstance(c.func, ast.Attribute) and c.func.attr in ("match", "fullmatch")):
+        return None
+    recv = c.func.value
+    if isinstance(recv, ast.Name) and recv.id == "re" and "re" in fn.mod.imports and c.args:
+        pats = const_values(fn, c.args[0])
+        flags = [0]
+        fl = c.args[2] if len(c.args) > 2 else next((k.value for k in c.keywords if k.arg == "flags"), None)
+        if fl is not None:
+            flags = const_values(fn, fl)
+        if pats is None or flags is None:
+            return None
+        out = []
+        for p_ in pats:
+            for f_ in flags:
+                if isinstance(p_, RegexConst):
+                    out.append(p_)
+                elif isinstance(p_, str) and isinstance(f_, int):
+                    out.append(RegexConst(p_, f_))
+                else:
+                    return None
+        return out or None
+    vals = const_values(fn, recv)
+    if not vals or not all(isinstance(v, RegexConst) for v in vals):
+        return None
+    return vals
+
+
+def _source_at_pos(fn: Fn, g, subj, call, pops) -> bool:
+    """Is *subj* (the subject of a match call) the source text from the current position on -- spelled
+    <...>.source[<...>.__pos:] directly, or through local aliases that no pop can have made stale?"""
+    from ..dataflow import expand_aliases, resolve_local
+
+    def pure(v) -> bool:
+        return not any(isinstance(x, (ast.Call, ast.NamedExpr, ast.Await, ast.Yield, ast.YieldFrom)) for x in ast.walk(v))
+    here = _cfg_node_of_expr(g, call)
+    # staleness: an alias holding a slice of the source must have been (re)computed after the last pop
+    for nm in [x for x in ast.walk(subj) if isinstance(x, ast.Name) and isinstance(x.ctx, ast.Load)]:
+        v = resolve_local(fn, nm, pure)
+        if v is not None and any(isinstance(x, ast.Attribute) and x.attr.endswith("__pos") for x in ast.walk(v)):
+            defs = {n.id for n in g.nodes if n.kind == "stmt" and isinstance(n.ast, (ast.Assign, ast.AnnAssign))
+                    and nm.id in _tnames(n.ast.targets[0] if isinstance(n.ast, ast.Assign) else n.ast.target)}
+            if here is None or any(p_ == here or g.can_reach(p_, here, avoid=defs) for p_ in pops):
+                return False
+    e = expand_aliases(fn, subj, pure)
+    if not (isinstance(e, ast.Subscript) and isinstance(e.slice, ast.Slice) and e.slice.upper is None and e.slice.step is None
+            and e.slice.lower is not None):
+        return False
+    lo, base = e.slice.lower, e.value
+    return isinstance(lo, ast.Attribute) and lo.attr.endswith("__pos") and isinstance(base, ast.Attribute) and base.attr == "source"
 
 
 def _guards(fn: Fn, g):
     """Strong guards: places that establish 'the next character(s) are drawn from a backslash-free set'.
     Returns (unconditional: set of node ids, edges: {test node id: 'T' | 'F'})  -- for a test node the
-    restriction holds on the outgoing edge with that label only."""
-    peeked = _peek_derived_names(fn)
+    restriction holds on the outgoing edge with that label only.
+
+    A guard is a test of the look-ahead (self.peek() / self.raw_peek(), directly or through names bound from them)
+    against backslash-free constants, or the success of a regular-expression match whose language is backslash-free
+    (the pattern may be any of the constants a table-driven rewrite selects from), tested directly, through the name
+    (or filtered collection) bound to the match, through any() over the attempts, or through a boolean flag that is
+    only set behind such a guard.  A test on a *name* counts only while the name is fresh: no pop may lie between the
+    look-up / match that produced it and the test."""
+    peek_roots = _peek_roots(fn, g)
+    peeked = set(peek_roots)
+    pops = {_cfg_node_of_expr(g, p) for p in _pop_sites(fn)}
+    pops.discard(None)
+    binds = _all_bindings(fn)
 
     def mentions_peek(e) -> bool:
         for c in ast.walk(e):
@@ -365,11 +680,101 @@ def _guards(fn: Fn, g):
                 return True
         return False
 
+    match_cache: Dict[int, bool] = {}
+
     def is_match_call(c) -> bool:
-        if isinstance(c, ast.Call) and isinstance(c.func, ast.Attribute) and c.func.attr == "match":
-            rc = fold_in_fn(c.func.value, fn, default=None)
-            return isinstance(rc, RegexConst) and not _regex_may_match(rc.pattern, rc.flags, "\\")
+        """<backslash-free pattern>.match(<the source from the current position on>), or a look-up of the look-ahead in
+        a constant dict with backslash-free keys and truthy values (None when the key is missing)."""
+        k = id(c)
+        if k not in match_cache:
+            rcs = _regex_of_call(fn, c)
+            ok = bool(rcs) and not any(_regex_may_match(rc.pattern, rc.flags, "\\") for rc in rcs)
+            if ok:
+                subj = c.args[1] if (isinstance(c.func.value, ast.Name) and c.func.value.id == "re") and len(c.args) > 1 \
+                    else (c.args[0] if c.args else None)
+                ok = subj is not None and len(c.args) <= (3 if subj is not c.args[0] else 1) and _source_at_pos(fn, g, subj, c, pops)
+            if not ok and isinstance(c, ast.Call) and isinstance(c.func, ast.Attribute) and c.func.attr == "get" \
+                    and 1 <= len(c.args) <= 2 and not c.keywords and (len(c.args) == 1 or _is_none(c.args[1])) \
+                    and mentions_peek(c.args[0]):
+                tabs = const_values(fn, c.func.value)
+                ok = bool(tabs) and all(isinstance(t, dict) and t and all(isinstance(k_, str) and "\\" not in k_ and v_
+                                                                        for k_, v_ in t.items()) for t in tabs)
+            match_cache[k] = ok
+        return match_cache[k]
+
+    # ---- names bound to a match result (None when it failed) or to a filtered collection of successful matches
+    match_names: Dict[str, Set[int]] = {}          # name -> CFG nodes where the match is attempted
+
+    def match_valued(e, strict=True) -> bool:
+        """The value is a match object of a backslash-free pattern at the current position, or falsy."""
+        if is_match_call(e):
+            return True
+        if isinstance(e, ast.Name):
+            return e.id in match_names
+        if isinstance(e, ast.NamedExpr):
+            return match_valued(e.value)
+        if isinstance(e, ast.IfExp):
+            return (match_valued(e.body) or _is_none(e.body)) and (match_valued(e.orelse) or _is_none(e.orelse)) \
+                and not (_is_none(e.body) and _is_none(e.orelse))
+        if isinstance(e, ast.BoolOp):
+            return all(match_valued(v) or _is_none(v) for v in e.values) and any(match_valued(v) for v in e.values)
+        if isinstance(e, ast.Call) and isinstance(e.func, ast.Name) and e.func.id == "next" and len(e.args) == 2 \
+                and _is_none(e.args[1]) and isinstance(e.args[0], (ast.GeneratorExp, ast.ListComp)):
+            comp = e.args[0]
+            return match_valued(comp.elt) or (filtered(comp) and isinstance(comp.elt, (ast.Tuple, ast.List)) and bool(comp.elt.elts))
+        if isinstance(e, ast.Call) and isinstance(e.func, ast.Name) and e.func.id in ("list", "tuple") and len(e.args) == 1:
+            a0 = e.args[0]
+            if isinstance(a0, ast.Call) and isinstance(a0.func, ast.Name) and a0.func.id == "filter" and len(a0.args) == 2 \
+                    and _is_none(a0.args[0]) and isinstance(a0.args[1], (ast.GeneratorExp, ast.ListComp)):
+                return match_valued(a0.args[1].elt)          # list(filter(None, (p.match(s) for p in P)))
+            return filtered(a0) if isinstance(a0, (ast.GeneratorExp, ast.ListComp)) else match_valued(a0)
+        if isinstance(e, ast.ListComp):
+            # a collection is non-empty exactly when its filter passed once: the filter must be a guard
+            return filtered(e)
+        if isinstance(e, ast.Subscript) and isinstance(e.value, ast.Name) and e.value.id in match_names \
+                and not isinstance(e.slice, ast.Slice):
+            return True
         return False
+
+    def filtered(comp) -> bool:
+        return any(side(c) == "T" for gen in comp.generators for c in gen.ifs)
+
+    def match_roots(e) -> Set[int]:
+        out: Set[int] = set()
+        here = _cfg_node_of_expr(g, e)
+        for c in ast.walk(e):
+            if isinstance(c, ast.Call) and is_match_call(c) and here is not None:
+                out.add(here)
+            if isinstance(c, ast.Name) and c.id in match_names:
+                out |= match_names[c.id]
+        return out
+
+    flags = _bool_flags(fn)
+    flag_ok: Set[str] = set()
+
+    def fresh(names, t) -> bool:
+        """No pop can reach test node *t* without renewing every name of *names* on the way."""
+        for nm in names:
+            roots = peek_roots.get(nm, set()) | match_names.get(nm, set())
+            if nm in flag_ok:
+                roots = {g.nid(b[1]) for b in binds.get(nm, [])} - {None}
+            if t in roots:
+                continue
+            for p_ in pops:
+                if p_ == t or g.can_reach(p_, t, avoid=roots):
+                    return False
+        return True
+
+    cur_test = [None]
+
+    def names_fresh(e) -> bool:
+        if cur_test[0] is None:
+            return True
+        used = {c.id for c in ast.walk(e) if isinstance(c, ast.Name) and (c.id in peeked or c.id in match_names or c.id in flag_ok)}
+        direct = any(isinstance(c, ast.Call) and isinstance(c.func, ast.Attribute) and c.func.attr in PEEKS for c in ast.walk(e))
+        if direct and not used:
+            return True
+        return fresh(used, cur_test[0])
 
     def side(e) -> Optional[str]:
         """On which outcome of *e* is the restriction established?"""
@@ -383,35 +788,96 @@ def _guards(fn: Fn, g):
             return "F" if "F" in rs else None
         if isinstance(e, ast.Compare) and len(e.ops) == 1:
             l, op, r = e.left, e.ops[0], e.comparators[0]
+            # <match> is None / is not None ;  len(<matches>) > 0 ...
+            if _is_none(r) and match_valued(l) and names_fresh(l):
+                if isinstance(op, (ast.Is, ast.Eq)):
+                    return "F"
+                if isinstance(op, (ast.IsNot, ast.NotEq)):
+                    return "T"
+            if isinstance(l, ast.Call) and isinstance(l.func, ast.Name) and l.func.id == "len" and len(l.args) == 1 \
+                    and match_valued(l.args[0]) and isinstance(r, ast.Constant) and isinstance(r.value, int) and names_fresh(l):
+                k = r.value
+                if (isinstance(op, ast.Gt) and k >= 0) or (isinstance(op, ast.GtE) and k >= 1) or (isinstance(op, ast.NotEq) and k == 0):
+                    return "T"
+                if (isinstance(op, ast.Eq) and k == 0) or (isinstance(op, ast.Lt) and k == 1) or (isinstance(op, ast.LtE) and k == 0):
+                    return "F"
+            if isinstance(l, ast.Name) and l.id in flag_ok and isinstance(r, ast.Constant) and isinstance(r.value, bool) and names_fresh(l):
+                pos = isinstance(op, (ast.Is, ast.Eq))
+                if isinstance(op, (ast.Is, ast.Eq, ast.IsNot, ast.NotEq)):
+                    return "T" if pos == r.value else "F"
             ok = (mentions_peek(l) and _const_without(fn, r, "\\", peeked)) or \
                  (mentions_peek(r) and _const_without(fn, l, "\\", peeked))
+            if ok and not names_fresh(e):
+                ok = False
             if ok and isinstance(op, (ast.In, ast.Eq)):
                 return "T"
             if ok and isinstance(op, (ast.NotIn, ast.NotEq)):
                 return "F"
             return None
         if isinstance(e, ast.Call) and isinstance(e.func, ast.Attribute) and e.func.attr in ("startswith", "endswith") \
-                and mentions_peek(e.func.value) and e.args and _const_without(fn, e.args[0], "\\", peeked):
+                and mentions_peek(e.func.value) and e.args and _const_without(fn, e.args[0], "\\", peeked) and names_fresh(e):
             return "T"
-        if isinstance(e, ast.NamedExpr):
-            return "T" if is_match_call(e.value) else side(e.value)
-        if is_match_call(e):
-            return "T"
+        if isinstance(e, ast.Call) and isinstance(e.func, ast.Name) and e.func.id == "any" and len(e.args) == 1 \
+                and isinstance(e.args[0], (ast.GeneratorExp, ast.ListComp)):
+            comp = e.args[0]
+            if side(comp.elt) == "T" or any(side(c) == "T" for gen in comp.generators for c in gen.ifs):
+                return "T"
+            return None
+        if isinstance(e, ast.Call) and isinstance(e.func, ast.Name) and e.func.id == "bool" and len(e.args) == 1:
+            return side(e.args[0])
+        if isinstance(e, ast.Name) and e.id in flag_ok:
+            return "T" if names_fresh(e) else None
+        if match_valued(e):
+            return "T" if names_fresh(e) else None
         return None
 
-    uncond: Set[int] = set()
-    edges: Dict[int, str] = {}
-    for node in g.nodes:
-        a = node.ast
-        if a is None:
-            continue
-        if node.kind == "test":
+    # fixed point: match names
+    changed = True
+    while changed:
+        changed = False
+        for nm, bs in binds.items():
+            if not all(k in ("assign", "walrus") and path == () and v is not None for k, _, v, path in bs):
+                continue
+            if all(match_valued(v) or _is_none(v) for _, _, v, _ in bs) and any(match_valued(v) for _, _, v, _ in bs):
+                roots: Set[int] = set()
+                for _, node, v, _ in bs:
+                    roots |= match_roots(v if not isinstance(node, ast.NamedExpr) else node)
+                if nm not in match_names or not roots <= match_names[nm]:
+                    match_names.setdefault(nm, set()).update(roots)
+                    changed = True
+
+    def collect():
+        uncond: Set[int] = set()
+        edges: Dict[int, str] = {}
+        for node in g.nodes:
+            a = node.ast
+            if a is None or node.kind != "test":
+                continue
+            cur_test[0] = node.id
             r = side(a)
+            cur_test[0] = None
             if r is not None:
                 edges[node.id] = r
-        elif node.kind == "stmt" and isinstance(a, ast.Assign):
-            if any(is_match_call(c) for c in ast.walk(a.value)):
-                uncond.add(node.id)
+        return uncond, edges
+
+    uncond, edges = collect()
+    # boolean flags that are set to True only behind a guard: testing the flag is testing the guard
+    if flags:
+        def unguarded_edge(n, m, lab) -> bool:
+            return not (n in edges and lab == edges[n])
+        for _round in range(3):
+            new = set()
+            for f_ in flags - flag_ok:
+                sets_true = [g.nid(b[1]) for b in binds[f_] if b[2].value is True]
+                if not sets_true or None in sets_true:
+                    continue
+                if all(not any(g.can_reach(s0, t_, edge_filter=unguarded_edge) for s0 in [g.entry] + sorted(pops))
+                       for t_ in sets_true):
+                    new.add(f_)
+            if not new:
+                break
+            flag_ok |= new
+            uncond, edges = collect()
     return uncond, edges
 
 
@@ -430,6 +896,8 @@ def _cfg_node_of_expr(g, e):
             t = g.nid(n.test)
             if t is not None:
                 return t
+        if isinstance(n, (ast.FunctionDef, ast.AsyncFunctionDef, ast.Lambda)):
+            return None
         n = parent(n)
     return None
 
@@ -439,7 +907,10 @@ def head_verified(fn: Fn, pop_call) -> bool:
     around a loop) -- establishes a strong guard first (traverses a restricted edge of a guard test,
     or an unconditional guard statement)."""
     g = cfg_of(fn)
-    uncond, edges = _guards(fn, g)
+    k = id(fn.node)
+    if k not in _GUARD_CACHE:
+        _GUARD_CACHE[k] = _guards(fn, g)
+    uncond, edges = _GUARD_CACHE[k]
     site = _cfg_node_of_expr(g, pop_call)
     if site is None:
         return False
@@ -455,6 +926,9 @@ def head_verified(fn: Fn, pop_call) -> bool:
     return True
 
 
+_GUARD_CACHE: Dict[int, tuple] = {}
+
+
 def rule_exc(run, prog):
     run.rule("R-5.2", "EXC: repository exceptions raised below the per-file try of main are all covered by one of its "
              "handlers; below Lexer.__iter__ (tokenizer totality) nothing may escape: every self.pop() in a sub-parser "
@@ -467,13 +941,15 @@ def rule_exc(run, prog):
     for fn in prog.fns:
         for n in walk_fn(fn.node):
             if isinstance(n, ast.Raise) and n.exc is not None:
-                cn = text(n.exc.func if isinstance(n.exc, ast.Call) else n.exc).split(".")[-1]
-                if cn in prog.classes and prog.is_sub(cn, "NorminetteError"):
-                    raises.append((fn, n, cn))
-                elif isinstance(getattr(__import__("builtins"), cn, None), type) \
-                        and issubclass(getattr(__import__("builtins"), cn), BaseException) \
-                        and fn.mod.rel != "__main__.py":
-                    raises.append((fn, n, cn))      # explicit raise of a builtin exception below main
+                for cn in _raised_classes(prog, fn, n):
+                    if cn in prog.classes and prog.is_sub(cn, "NorminetteError"):
+                        raises.append((fn, n, cn))
+                    elif cn in prog.classes and not prog.is_sub(cn, "NorminetteError") and fn.mod.rel != "__main__.py" \
+                            and any(b in exc_bases(prog, cn) for b in ("Exception", "BaseException")) \
+                            and _is_exception_class(prog, cn):
+                        raises.append((fn, n, cn))      # a repository exception outside the NorminetteError family
+                    elif cn not in prog.classes and fn.mod.rel != "__main__.py":
+                        raises.append((fn, n, cn))      # explicit raise of a builtin exception below main
     run.require(len(raises) >= 25, f"only {len(raises)} repository raise sites found (floor 25)")
 
     # escaping[fn key] = set of (class, origin key)  computed to a fixed point
@@ -492,10 +968,12 @@ def rule_exc(run, prog):
     lexer_fns = {f.key for f in prog.fns if f.cls is not None and f.cls.name == "Lexer"}
     pop_key = "lexer/lexer.py::Lexer.pop"
     head_cache: Dict[int, bool] = {}
+    all_calls = list(cg.calls) + _alias_calls(prog, cg)
+    calls_of_main_extra = [c for c in all_calls[len(cg.calls):] if c.caller.key == "__main__.py::main"]
     changed = True
     while changed:
         changed = False
-        for c in cg.calls:
+        for c in all_calls:
             if not isinstance(c.node, ast.Call) and not isinstance(c.node, (ast.For, ast.comprehension, ast.Attribute)):
                 continue
             for t in c.targets:
@@ -517,11 +995,19 @@ def rule_exc(run, prog):
                         changed = True
     # ---- obligation A: main's per-file try covers everything escaping its body
     main = prog.fn("__main__.py::main")
-    trys = [n for n in walk_fn(main.node) if isinstance(n, ast.Try) and any(
-        isinstance(c, ast.Call) and text(c.func).endswith("registry.run") for c in ast.walk(n))]
+    run_key = "registry.py::Registry.run"
+    trys = [n for n in walk_fn(main.node) if isinstance(n, ast.Try) and n.handlers and any(
+        any(t.key == run_key for t in c.targets) and any(_inside(c.node, s_) for s_ in n.body)
+        for c in cg.calls_of.get(main.key, []) + calls_of_main_extra)]
+    if not trys:
+        trys = [n for n in walk_fn(main.node) if isinstance(n, ast.Try) and any(
+            isinstance(c, ast.Call) and text(c.func).endswith("registry.run") for s_ in n.body for c in ast.walk(s_))]
+    # the innermost such try is the per-file one
+    trys = [t_ for t_ in trys if not any(o is not t_ and _inside(o, t_) for o in trys)]
     run.require(len(trys) == 1, "anchor vanished: per-file try of main")
     tr = trys[0]
-    body_calls = [c for c in cg.calls_of.get(main.key, []) if any(c.node is x or _inside(c.node, s) for s in tr.body for x in [s])]
+    body_calls = [c for c in cg.calls_of.get(main.key, []) + calls_of_main_extra
+                  if any(c.node is x or _inside(c.node, s) for s in tr.body for x in [s])]
     run.require(len(body_calls) >= 3, "per-file try body has fewer than 3 resolved calls")
     reported = set()
     n_ob = 0
@@ -570,6 +1056,31 @@ def rule_exc(run, prog):
                         reraises = any(isinstance(x, ast.Raise) for x in ast.walk(h))
                         run.ob("R-5.2", f"{fn.key}::handler[{','.join(names)}]", reraises,
                                "a handler below main swallows fatal parse errors (no raise inside it)", h)
+
+
+def _alias_calls(prog, cg):
+    """Calls through a local alias of a bound method (`check = registry.run; check(context)`), which the call graph
+    leaves unresolved: resolved here through the single reaching definition of the alias."""
+    from ..calls import Call as CGCall
+    from ..dataflow import resolve_local, is_path
+    out = []
+    for fn in prog.fns:
+        local = None
+        for n in walk_fn(fn.node):
+            if not (isinstance(n, ast.Call) and isinstance(n.func, ast.Name)):
+                continue
+            if local is None:
+                local = {k for k, bs in _all_bindings(fn).items() if any(b[0] == "assign" for b in bs)}
+            if n.func.id not in local:
+                continue
+            v = resolve_local(fn, n.func, is_path)
+            if not isinstance(v, ast.Attribute):
+                continue
+            synth = ast.copy_location(ast.Call(func=v, args=n.args, keywords=n.keywords), n)
+            targets, how = cg.resolve(synth, fn)
+            if targets and how in ("typed", "super"):
+                out.append(CGCall(fn, n, targets, "alias:" + how))
+    return out
 
 
 def _inside(node, container) -> bool:
@@ -795,6 +1306,14 @@ def _monotone_vars(loop: ast.While) -> Dict[str, int]:
                 for nm in _tnames(t):
                     v = n.value
                     d = 0
+                    if isinstance(t, ast.Name) and isinstance(v, ast.BinOp) and isinstance(v.op, (ast.Add, ast.Sub)):
+                        # i = i + c  /  i = c + i  /  i = i - c     (c a positive constant)
+                        def pc(x):
+                            return isinstance(x, ast.Constant) and isinstance(x.value, int) and not isinstance(x.value, bool) and x.value > 0
+                        if isinstance(v.left, ast.Name) and v.left.id == nm and pc(v.right):
+                            d = 1 if isinstance(v.op, ast.Add) else -1
+                        elif isinstance(v.op, ast.Add) and isinstance(v.right, ast.Name) and v.right.id == nm and pc(v.left):
+                            d = 1
                     if isinstance(v, ast.Call) and isinstance(v.func, ast.Attribute) and v.func.attr in (
                             "skip_ws", "skip_nest", "eol", "skip_misc_specifier") and isinstance(t, ast.Name):
                         d = 1
@@ -848,12 +1367,57 @@ def _assigned_in(loop) -> Set[str]:
     return out
 
 
-def _loop_anchor(loop: ast.While) -> str:
-    consts = sorted({c.value for c in ast.walk(loop.test) if isinstance(c, ast.Constant) and isinstance(c.value, str)})
+def _loop_anchor(loop: ast.While, fn: Optional[Fn] = None) -> str:
+    consts = {c.value for c in ast.walk(loop.test) if isinstance(c, ast.Constant) and isinstance(c.value, str)}
+    if fn is not None:
+        # kinds hoisted into a module / class / local constant keep the same anchor
+        for c in ast.walk(loop.test):
+            if isinstance(c, ast.Call) and isinstance(c.func, ast.Attribute) and c.func.attr in ("check_token",) and len(c.args) == 2 \
+                    and isinstance(c.args[1], (ast.Name, ast.Attribute)):
+                for v in const_values(fn, c.args[1]) or []:
+                    if isinstance(v, str):
+                        consts.add(v)
+                    elif isinstance(v, (list, tuple, set, frozenset)) and all(isinstance(x, str) for x in v):
+                        consts.update(v)
+    consts = sorted(consts)
     if consts:
         return "kinds=" + ",".join(consts)
     names = sorted({n.id for n in ast.walk(loop.test) if isinstance(n, ast.Name)} - {"context", "self"})
     return "names=" + ",".join(names)
+
+
+class _EndState(EndState):
+    """EndState that also recognises a look-up made through a local alias of the bound method
+    (`check = context.check_token ... check(i, "X")`)."""
+
+    def __init__(self, modified, lexer_mode=False, fn: Optional[Fn] = None):
+        super().__init__(modified, lexer_mode=lexer_mode)
+        self.fn = fn
+
+    def is_lookup(self, call: ast.Call) -> bool:
+        if super().is_lookup(call):
+            return True
+        if self.fn is not None and isinstance(call.func, ast.Name):
+            from ..dataflow import resolve_local, is_path
+            v = resolve_local(self.fn, call.func, is_path)
+            if isinstance(v, ast.Attribute):
+                synth = ast.Call(func=v, args=call.args, keywords=call.keywords)
+                return super().is_lookup(synth)
+        return False
+
+
+def _has_lookup(fn: Fn, node) -> bool:
+    from ..dataflow import resolve_local, is_path
+    names = ("check_token", "peek_token", "peek", "raw_peek")
+    for x in ast.walk(node):
+        if isinstance(x, ast.Call):
+            if isinstance(x.func, ast.Attribute) and x.func.attr in names:
+                return True
+            if isinstance(x.func, ast.Name) and x.func.id not in ("len", "range", "isinstance", "type", "print"):
+                v = resolve_local(fn, x.func, is_path) if getattr(x.func, "_sa_parent", None) is not None else None
+                if isinstance(v, ast.Attribute) and v.attr in names:
+                    return True
+    return False
 
 
 def rule_loop(run, prog):
@@ -862,31 +1426,45 @@ def rule_loop(run, prog):
              "index, or a break/return/raise reachable in the body in that state; definitely-true or frozen-unknown "
              "conditions are violations", floor=140)
     n_loops = 0
+    from .. import exceptions as exc_table
+    table_keys = {e["key"] for e in exc_table.TABLE if e["property"] == "C05" and e["rule"] == "R-5.4"}
     for fn in prog.fns:
         rel = fn.mod.rel
         if not (rel.startswith("rules/") or rel in ("context.py", "lexer/lexer.py", "registry.py")):
             continue
         lexer_mode = rel == "lexer/lexer.py"
         for loop in [n for n in walk_fn(fn.node) if isinstance(n, ast.While)]:
-            has_lookup = any(isinstance(x, ast.Call) and isinstance(x.func, ast.Attribute)
-                             and x.func.attr in ("check_token", "peek_token", "peek", "raw_peek") for x in ast.walk(loop))
-            if not has_lookup:
+            if not _has_lookup(fn, loop):
                 continue
             n_loops += 1
             key = f"{fn.key}::while[{_loop_anchor(loop)}]"
+            if key not in table_keys:
+                # the same construct with its kinds hoisted into a constant keeps the key the exception table knows
+                alt = f"{fn.key}::while[{_loop_anchor(loop, fn)}]"
+                if alt in table_keys:
+                    key = alt
+                elif isinstance(loop.test, ast.Constant):
+                    # `while True: if <exit test>: break ...` : the exit tests carry the kinds
+                    for st_ in loop.body:
+                        if isinstance(st_, ast.If) and st_.body and isinstance(st_.body[-1], (ast.Break, ast.Return)):
+                            probe = ast.While(test=st_.test, body=[], orelse=[])
+                            alt = f"{fn.key}::while[{_loop_anchor(probe, fn)}]"
+                            if alt in table_keys:
+                                key = alt
+                                break
             modified = _assigned_in(loop)
             mono = _monotone_vars(loop)
             bound = _bounding_conjunct(loop.test, mono)
             if bound is not None:
                 run.ob("R-5.4", key, True, "bounded", loop, how=f"bounded by {bound}")
                 continue
-            st = EndState(modified, lexer_mode=lexer_mode)
+            st = _EndState(modified, lexer_mode=lexer_mode, fn=fn)
             c = st.ev(loop.test)
             if c == X or truthy(c) is False:
                 run.ob("R-5.4", key, True, "exits", loop, how=f"condition is {c} in the end state")
                 continue
             res = BodyResult()
-            st2 = EndState(modified, lexer_mode=lexer_mode)
+            st2 = _EndState(modified, lexer_mode=lexer_mode, fn=fn)
             st2.none_names = set(st.none_names)
             explore_body(loop.body, st2, res)
             if res.exit_reachable:
@@ -931,55 +1509,568 @@ def rule_loop(run, prog):
     run.require(n_loops >= 140, f"only {n_loops} token-scanning while loops found (floor 140)")
 
 
+# --------------------------------------------------------------------------- validators of the R-5.4 exception table
+# (sa/exceptions.py delegates here: the facts are decided on the CFG, not on the spelling of the statements)
+def kind_test_side(fn: Fn, e, kinds: Set[str], _depth=0) -> Optional[str]:
+    """Outcome of test *e* on which `a token exists at the tested position and its kind is in *kinds*` holds."""
+    if isinstance(e, ast.UnaryOp) and isinstance(e.op, ast.Not):
+        return {"T": "F", "F": "T"}.get(kind_test_side(fn, e.operand, kinds, _depth))
+    if isinstance(e, ast.BoolOp):
+        rs = [kind_test_side(fn, v, kinds, _depth) for v in e.values]
+        if isinstance(e.op, ast.And):
+            return "T" if "T" in rs else None
+        return "F" if "F" in rs else None
+    if isinstance(e, ast.NamedExpr):
+        return kind_test_side(fn, e.value, kinds, _depth)
+
+    def within(k_expr) -> bool:
+        vals = const_values(fn, k_expr)
+        if not vals:
+            return False
+        for v in vals:
+            items = [v] if isinstance(v, str) else (list(v) if isinstance(v, (list, tuple, set, frozenset)) else None)
+            if items is None or not items or not all(isinstance(x, str) and x in kinds for x in items):
+                return False
+        return True
+
+    def is_check(c) -> bool:
+        return isinstance(c, ast.Call) and isinstance(c.func, ast.Attribute) and c.func.attr == "check_token" \
+            and len(c.args) == 2 and within(c.args[1])
+
+    def is_type_of_token(x) -> bool:
+        return isinstance(x, ast.Attribute) and x.attr == "type"
+    if is_check(e):
+        return "T"
+    if isinstance(e, ast.Name) and _depth < 3:
+        # a local that holds the outcome of such a test
+        bs = _all_bindings(fn).get(e.id, [])
+        if bs and all(k in ("assign", "walrus") and path == () and v is not None for k, _, v, path in bs):
+            sides = {kind_test_side(fn, v, kinds, _depth + 1) for _, _, v, _ in bs}
+            if len(sides) == 1:
+                return next(iter(sides))
+        return None
+    if isinstance(e, ast.Compare) and len(e.ops) == 1:
+        l, op, r = e.left, e.ops[0], e.comparators[0]
+        if is_check(l) and isinstance(r, ast.Constant):
+            if r.value is True:
+                return "T" if isinstance(op, (ast.Is, ast.Eq)) else ("F" if isinstance(op, (ast.IsNot, ast.NotEq)) else None)
+            return None
+        if is_type_of_token(l) and isinstance(op, (ast.Eq, ast.In)) and within(r):
+            return "T"
+        if is_type_of_token(l) and isinstance(op, (ast.NotEq, ast.NotIn)) and within(r):
+            return "F"
+    return None
+
+
+def _kind_tests(fn: Fn, g, kinds: Set[str]) -> Dict[int, str]:
+    out = {}
+    for n in g.nodes:
+        if n.kind == "test" and n.ast is not None:
+            sd = kind_test_side(fn, n.ast, kinds)
+            if sd is not None:
+                out[n.id] = sd
+    return out
+
+
+def _true_producers(fn: Fn, g) -> List[int]:
+    """CFG nodes that fix a (True, n) result of a (bool, int)-returning function: `return True, n` statements, and the
+    assignments of such a display to a local that is returned.  Unknown first components count as possibly True."""
+    out = []
+
+    flags = _bool_flags(fn)
+
+    def maybe_true(d) -> bool:
+        if not d.elts:
+            return True
+        vs = const_values(fn, d.elts[0])
+        return vs is None or any(bool(v) for v in vs)
+
+    def producers_of(d, here) -> List[Optional[int]]:
+        """Where the truth of the first component of display *d* is decided: the statements that set the boolean
+        flag it reads, otherwise the node *here* that builds the display."""
+        if d.elts and isinstance(d.elts[0], ast.Name) and d.elts[0].id in flags:
+            return [g.nid(b[1]) for b in _all_bindings(fn)[d.elts[0].id] if b[2].value is True]
+        return [here]
+    for n in walk_fn(fn.node):
+        if not isinstance(n, ast.Return) or n.value is None:
+            continue
+        v = n.value
+        if isinstance(v, ast.Name):
+            for kind, node, val, path in _all_bindings(fn).get(v.id, []):
+                ds = list(_tuple_displays(fn, val)) if (kind in ("assign", "walrus") and path == () and val is not None) else None
+                if ds is None or not ds:
+                    out.append(g.nid(n))                     # opaque: the return itself is the producer
+                else:
+                    for d in ds:
+                        if maybe_true(d):
+                            out += producers_of(d, _cfg_node_of_expr(g, node))
+        else:
+            ds = list(_tuple_displays(fn, v))
+            if not ds:
+                out.append(g.nid(n))
+            for d in ds:
+                if maybe_true(d):
+                    out += producers_of(d, g.nid(n))
+    return [x for x in out if x is not None]
+
+
+def true_results_only_behind(fn: Fn, kinds: Set[str]) -> bool:
+    """Every path on which *fn* answers (True, ...) has passed a successful test of a token kind in *kinds*."""
+    g = cfg_of(fn)
+    tests = _kind_tests(fn, g, kinds)
+    prods = _true_producers(fn, g)
+    if not tests:
+        return not prods
+    return all(_only_through(g, g.entry, p_, tests) for p_ in prods)
+
+
+def fails_unless(fn: Fn, tests: Dict[int, str]) -> bool:
+    """Some test of *tests* ({node: establishing outcome}) lets the function return normally on its establishing
+    outcome only: the other outcome always ends in a raise."""
+    g = cfg_of(fn)
+    for t, side in tests.items():
+        others = [m for m, lab in g.succ[t] if lab in ("T", "F") and lab != side]
+        if others and all(g.exit not in g.reachable(m, follow_exc=False) for m in others):
+            return True
+    return False
+
+
+def validate_comment_slot(prog) -> bool:
+    """CheckCommentLineLen runs only in slot IsComment, and IsComment.run answers True only behind a successful
+    check_token(i, [COMMENT / MULT_COMMENT])."""
+    rm = registry_model(prog)
+    if set(rm.live_slots("CheckCommentLineLen")) != {"IsComment"}:
+        return False
+    fn = prog.method("IsComment", "run")
+    return fn is not None and true_results_only_behind(fn, {"COMMENT", "MULT_COMMENT"})
+
+
+def validate_define_rparen(prog) -> bool:
+    """IsPreprocessorStatement.check_define raises unless the macro parameter list is closed by RPARENTHESIS."""
+    fn = prog.method("IsPreprocessorStatement", "check_define")
+    if fn is None:
+        return False
+    return fails_unless(fn, _kind_tests(fn, cfg_of(fn), {"RPARENTHESIS"}))
+
+
+def validate_include_more_than(prog) -> bool:
+    """_check_path answers True only behind STRING or MORE_THAN, and check_include raises unless it answered True."""
+    cp = prog.method("IsPreprocessorStatement", "_check_path")
+    ci = prog.method("IsPreprocessorStatement", "check_include")
+    if cp is None or ci is None:
+        return False
+    if not true_results_only_behind(cp, {"STRING", "MORE_THAN"}):
+        return False
+    g = cfg_of(ci)
+    oks: Set[str] = set()
+    whole: Set[str] = set()
+    for nm, bs in _all_bindings(ci).items():
+        for kind, node, v, path in bs:
+            if kind in ("assign", "walrus") and v is not None and isinstance(v, ast.Call) \
+                    and isinstance(v.func, ast.Attribute) and v.func.attr == "_check_path":
+                if path == (0,):
+                    oks.add(nm)
+                elif path == ():
+                    whole.add(nm)
+    for nm, bs in _all_bindings(ci).items():
+        for kind, node, v, path in bs:
+            if kind == "assign" and path == () and isinstance(v, ast.Subscript) and isinstance(v.value, ast.Name) \
+                    and v.value.id in whole and isinstance(v.slice, ast.Constant) and v.slice.value == 0:
+                oks.add(nm)
+    tests = {}
+    for n in g.nodes:
+        if n.kind == "test" and n.ast is not None:
+            sd = _truthy_side(n.ast, oks)
+            if sd is not None:
+                tests[n.id] = sd
+    return bool(tests) and fails_unless(ci, tests)
+
+
 # =========================================================================== R-5.5
+def _all_bindings(fn: Fn):
+    """name -> list of (kind, node, value expr or None, path) for every binding in the function;
+    kind: 'assign' | 'aug' | 'for' | 'comp' | 'walrus' | 'param' | 'other'.  path: position inside a tuple target."""
+    ck = id(fn.node)
+    if ck in _BIND_CACHE:
+        return _BIND_CACHE[ck]
+    out: Dict[str, list] = {}
+    _BIND_CACHE[ck] = out
+
+    def targets(t, path=()):
+        if isinstance(t, ast.Name):
+            yield t.id, path
+        elif isinstance(t, (ast.Tuple, ast.List)):
+            for i, e in enumerate(t.elts):
+                if isinstance(e, ast.Starred):
+                    for nm, _ in targets(e.value):
+                        yield nm, None
+                else:
+                    for nm, p2 in targets(e, path + (i,)):
+                        yield nm, (None if p2 is None else p2)
+    for p_ in fn.params:
+        out.setdefault(p_, []).append(("param", fn.node, None, ()))
+    for n in walk_fn(fn.node):
+        if isinstance(n, ast.Assign):
+            for t in n.targets:
+                for nm, path in targets(t):
+                    out.setdefault(nm, []).append(("assign", n, n.value, path))
+        elif isinstance(n, ast.AnnAssign) and n.value is not None:
+            for nm, path in targets(n.target):
+                out.setdefault(nm, []).append(("assign", n, n.value, path))
+        elif isinstance(n, ast.AugAssign):
+            for nm, path in targets(n.target):
+                out.setdefault(nm, []).append(("aug", n, n.value, path))
+        elif isinstance(n, ast.NamedExpr):
+            out.setdefault(n.target.id, []).append(("walrus", n, n.value, ()))
+        elif isinstance(n, (ast.For, ast.AsyncFor)):
+            for nm, path in targets(n.target):
+                out.setdefault(nm, []).append(("for", n, n.iter, path))
+        elif isinstance(n, ast.comprehension):
+            for nm, path in targets(n.target):
+                out.setdefault(nm, []).append(("comp", n, n.iter, path))
+        elif isinstance(n, (ast.With, ast.AsyncWith)):
+            for it in n.items:
+                if it.optional_vars is not None:
+                    for nm, path in targets(it.optional_vars):
+                        out.setdefault(nm, []).append(("other", n, None, None))
+        elif isinstance(n, ast.ExceptHandler) and n.name:
+            out.setdefault(n.name, []).append(("other", n, None, None))
+        elif isinstance(n, (ast.Import, ast.ImportFrom)):
+            for a in n.names:
+                out.setdefault((a.asname or a.name).split(".")[0], []).append(("other", n, None, None))
+    return out
+
+
+_BIND_CACHE: Dict[int, Dict[str, list]] = {}
+
+
+def _bool_flags(fn: Fn) -> Set[str]:
+    """Local names that are only ever bound by `name = True` / `name = False`."""
+    out = set()
+    for nm, bs in _all_bindings(fn).items():
+        if bs and all(k == "assign" and path == () and isinstance(v, ast.Constant) and isinstance(v.value, bool)
+                      and len(node.targets if isinstance(node, ast.Assign) else [1]) == 1
+                      for k, node, v, path in bs):
+            out.add(nm)
+    return out
+
+
+def _flag_truth(e, state: Dict[str, bool]) -> Optional[bool]:
+    """Truth of a condition built from boolean flags whose value is known in *state* (None: undetermined)."""
+    if isinstance(e, ast.Constant):
+        return bool(e.value)
+    if isinstance(e, ast.Name):
+        return state.get(e.id)
+    if isinstance(e, ast.UnaryOp) and isinstance(e.op, ast.Not):
+        r = _flag_truth(e.operand, state)
+        return None if r is None else not r
+    if isinstance(e, ast.BoolOp):
+        rs = [_flag_truth(v, state) for v in e.values]
+        if isinstance(e.op, ast.And):
+            if any(r is False for r in rs):
+                return False
+            return True if all(r is True for r in rs) else None
+        if any(r is True for r in rs):
+            return True
+        return False if all(r is False for r in rs) else None
+    if isinstance(e, ast.Compare) and len(e.ops) == 1 and isinstance(e.comparators[0], ast.Constant) \
+            and isinstance(e.comparators[0].value, bool) and isinstance(e.left, ast.Name) and e.left.id in state:
+        same = state[e.left.id] is e.comparators[0].value
+        if isinstance(e.ops[0], (ast.Is, ast.Eq)):
+            return same
+        if isinstance(e.ops[0], (ast.IsNot, ast.NotEq)):
+            return not same
+    return None
+
+
+def flag_can_reach(g, fn: Fn, a: int, b: int, avoid=frozenset(), follow_exc=True, edge_filter=None) -> bool:
+    """CFG.can_reach made sensitive to the values of the function's boolean flags (locals only ever assigned
+    True / False: loop-exit flags, the inliner's __inl_done markers): an edge out of a test whose outcome is decided by
+    the flag values known on the path is followed only on the decided side.  Flags are unknown at *a*."""
+    flags = _bool_flags(fn)
+    if not flags:
+        return g.can_reach(a, b, avoid=avoid, follow_exc=follow_exc, edge_filter=edge_filter)
+
+    def effect(nid, state):
+        node = g.nodes[nid]
+        st = node.ast
+        if node.kind == "stmt" and isinstance(st, ast.Assign) and len(st.targets) == 1 and isinstance(st.targets[0], ast.Name) \
+                and st.targets[0].id in flags and isinstance(st.value, ast.Constant):
+            s2 = dict(state)
+            s2[st.targets[0].id] = bool(st.value.value)
+            return tuple(sorted(s2.items()))
+        return state
+
+    def out_edges(nid, state):
+        node = g.nodes[nid]
+        decided = None
+        if node.kind == "test" and node.ast is not None:
+            decided = _flag_truth(node.ast, dict(state))
+        for m, lab in g.succ[nid]:
+            if lab == "exc" and not follow_exc:
+                continue
+            if decided is not None and lab in ("T", "F") and (lab == "T") != decided:
+                continue
+            if edge_filter is not None and not edge_filter(nid, m, lab):
+                continue
+            yield m
+
+    s0 = effect(a, ())
+    todo = [(m, s0) for m in out_edges(a, s0)]
+    seen = set()
+    while todo:
+        n, st = todo.pop()
+        if n == b:
+            return True
+        if (n, st) in seen or n in avoid:
+            continue
+        seen.add((n, st))
+        st2 = effect(n, st)
+        for m in out_edges(n, st2):
+            todo.append((m, st2))
+    return False
+
+
+def _run_rules_result_names(fn: Fn):
+    """Names bound to the two components of a `self.run_rules(...)` result in *fn*:
+    (ret names, count names, {count name: [(assignment node, ret name)]})."""
+    binds = _all_bindings(fn)
+
+    def is_rr(e) -> bool:
+        return isinstance(e, ast.Call) and isinstance(e.func, ast.Attribute) and e.func.attr == "run_rules"
+    whole = {nm for nm, bs in binds.items() if any(k in ("assign", "walrus") and path == () and is_rr(v) for k, _, v, path in bs)}
+    rets: Set[str] = set()
+    counts: Dict[str, list] = {}
+    for n in walk_fn(fn.node):
+        if not isinstance(n, ast.Assign):
+            continue
+        v = n.value
+        from_rr = is_rr(v) or (isinstance(v, ast.Name) and v.id in whole)
+        for t in n.targets:
+            if from_rr and isinstance(t, (ast.Tuple, ast.List)) and len(t.elts) == 2 and all(isinstance(e, ast.Name) for e in t.elts):
+                rets.add(t.elts[0].id)
+                counts.setdefault(t.elts[1].id, []).append((n, t.elts[0].id))
+            elif isinstance(t, ast.Name) and isinstance(v, ast.Subscript) and isinstance(v.slice, ast.Constant) \
+                    and (is_rr(v.value) or (isinstance(v.value, ast.Name) and v.value.id in whole)):
+                if v.slice.value == 0:
+                    rets.add(t.id)
+                elif v.slice.value == 1:
+                    counts.setdefault(t.id, []).append((n, None))
+    return rets, counts
+
+
+def _positive_count(fn: Fn, g, e, at_node, _seen=None) -> bool:
+    """Is the value of *e*, evaluated at CFG node *at_node*, known to be >= 1?  A positive constant; the token count
+    returned by run_rules when the companion `ret` has been tested true on every path since the call (no Primary returns
+    (True, 0): obligation no-true-zero); a name all of whose reaching definitions are such values, or increments of
+    such values; max(1, ...); sums of those with non-negative constants."""
+    from ..dataflow import reaching_definitions
+    seen = set() if _seen is None else _seen
+    if at_node is None:
+        return False
+    if isinstance(e, ast.Constant):
+        return isinstance(e.value, int) and not isinstance(e.value, bool) and e.value >= 1
+    if isinstance(e, ast.Call) and isinstance(e.func, ast.Name) and e.func.id == "max" and len(e.args) >= 2:
+        return any(_positive_count(fn, g, a, at_node, seen) for a in e.args)
+    if isinstance(e, ast.BinOp) and isinstance(e.op, ast.Add):
+        def nonneg(x):
+            return isinstance(x, ast.Constant) and isinstance(x.value, int) and not isinstance(x.value, bool) and x.value >= 0
+        l, r = e.left, e.right
+        return (_positive_count(fn, g, l, at_node, seen) and (nonneg(r) or _positive_count(fn, g, r, at_node, seen))) \
+            or (nonneg(l) and _positive_count(fn, g, r, at_node, seen))
+    if isinstance(e, ast.NamedExpr):
+        return _positive_count(fn, g, e.value, at_node, seen)
+    if not isinstance(e, ast.Name):
+        return False
+    if (e.id, at_node) in seen:
+        return True                     # coinductive: a counter that starts positive and is only incremented
+    seen.add((e.id, at_node))
+    RD = _RD.get(id(fn.node))
+    if RD is None:
+        RD = _RD[id(fn.node)] = reaching_definitions(g, fn.params)
+    defs = RD.get(at_node, {}).get(e.id)
+    if not defs:
+        return False
+    rets, counts = _run_rules_result_names(fn)
+    for d in defs:
+        if d < 0:
+            return False
+        dn = g.nodes[d]
+        a = dn.ast
+        from_rr = [x for x in counts.get(e.id, []) if x[0] is a]
+        if from_rr:
+            ret_name = from_rr[0][1]
+            tests = {}
+            for tn in g.nodes:
+                if tn.kind == "test" and tn.ast is not None:
+                    sd = _truthy_side(tn.ast, rets if ret_name is None else {ret_name})
+                    if sd is not None:
+                        tests[tn.id] = sd
+            if not tests or d == at_node or not _only_through(g, d, at_node, tests):
+                return False
+        elif dn.kind == "stmt" and isinstance(a, ast.Assign) and len(a.targets) == 1 and isinstance(a.targets[0], ast.Name):
+            if not _positive_count(fn, g, a.value, d, seen):
+                return False
+        elif dn.kind == "stmt" and isinstance(a, ast.AnnAssign) and isinstance(a.target, ast.Name) and a.value is not None:
+            if not _positive_count(fn, g, a.value, d, seen):
+                return False
+        elif dn.kind == "stmt" and isinstance(a, ast.AugAssign) and isinstance(a.op, ast.Add) and isinstance(a.target, ast.Name):
+            inc_ok = isinstance(a.value, ast.Constant) and isinstance(a.value.value, int) and a.value.value >= 0 \
+                or _positive_count(fn, g, a.value, d, seen)
+            if not inc_ok or not _positive_count(fn, g, ast.Name(id=e.id, ctx=ast.Load()), d, seen):
+                return False
+        else:
+            return False
+    return True
+
+
+_RD: Dict[int, dict] = {}
+
+
+def _only_through(g, a, b, tests) -> bool:
+    """Every path a -> b traverses the establishing edge of one of *tests* ({test node: 'T'|'F'})."""
+    return not g.can_reach(a, b, follow_exc=False, edge_filter=lambda n_, m_, lab: not (n_ in tests and lab == tests[n_]))
+
+
+def _truthy_side(e, names: Set[str]) -> Optional[str]:
+    """Outcome of test *e* on which one of *names* is known truthy."""
+    if isinstance(e, ast.Name):
+        return "T" if e.id in names else None
+    if isinstance(e, ast.UnaryOp) and isinstance(e.op, ast.Not):
+        return {"T": "F", "F": "T"}.get(_truthy_side(e.operand, names))
+    if isinstance(e, ast.BoolOp):
+        rs = [_truthy_side(v, names) for v in e.values]
+        if isinstance(e.op, ast.And):
+            return "T" if "T" in rs else None
+        return "F" if "F" in rs else None
+    if isinstance(e, ast.Compare) and len(e.ops) == 1 and isinstance(e.left, ast.Name) and e.left.id in names \
+            and isinstance(e.comparators[0], ast.Constant):
+        c, op = e.comparators[0].value, e.ops[0]
+        if c is True:
+            return "T" if isinstance(op, (ast.Is, ast.Eq)) else ("F" if isinstance(op, (ast.IsNot, ast.NotEq)) else None)
+        if c is False or c is None:
+            return "F" if isinstance(op, (ast.Is, ast.Eq)) else None
+    if isinstance(e, ast.NamedExpr):
+        return _truthy_side(e.value, names)
+    return None
+
+
+def _pop_tokens_drops_prefix(prog, pt: Fn) -> bool:
+    ctx = prog.cls("Context")
+    methods = {("Context", n): m.node for n, m in ctx.methods.items()}
+    params = [x.arg for x in pt.node.args.posonlyargs + pt.node.args.args]
+    try:
+        if len(params) != 2:
+            raise Unsupported("signature")
+        for n in range(0, 4):
+            for k in range(0, 5):
+                toks = [Obj("Token", type=f"K{i}", value=None, pos=(1, i + 1)) for i in range(n)]
+                me = Obj("Context", tokens=list(toks))
+                Evaluator(methods).call_function(pt.node, {params[0]: me, params[1]: k})
+                left = me.tokens
+                if not isinstance(left, list) or len(left) != len(toks[k:]) or any(a is not b for a, b in zip(left, toks[k:])):
+                    return False
+        return True
+    except (Raised, LookupError, TypeError, ValueError, AttributeError):
+        return False
+    except Unsupported:
+        return any(isinstance(n, ast.Assign) and text(n.targets[0]) == "self.tokens" and isinstance(n.value, ast.Subscript)
+                   and text(n.value.value) == "self.tokens" and isinstance(n.value.slice, ast.Slice)
+                   and n.value.slice.lower is not None and n.value.slice.upper is None for n in walk_fn(pt.node))
+
+
+def _tuple_displays(fn: Fn, v, depth=0):
+    """The tuple / list displays a returned expression can stand for (through conditional expressions and locals)."""
+    if depth > 3:
+        return
+    if isinstance(v, (ast.Tuple, ast.List)):
+        yield v
+    elif isinstance(v, ast.IfExp):
+        yield from _tuple_displays(fn, v.body, depth + 1)
+        yield from _tuple_displays(fn, v.orelse, depth + 1)
+    elif isinstance(v, ast.Name):
+        for kind, node, val, path in _all_bindings(fn).get(v.id, []):
+            if kind in ("assign", "walrus") and path == () and val is not None:
+                yield from _tuple_displays(fn, val, depth + 1)
+
+
+def _sum_terms(e) -> list:
+    """Terms of a sum a + b + ... ; a None entry marks a subtraction / anything that may be negative."""
+    if isinstance(e, ast.BinOp) and isinstance(e.op, ast.Add):
+        return _sum_terms(e.left) + _sum_terms(e.right)
+    if isinstance(e, ast.BinOp) and isinstance(e.op, ast.Sub):
+        return _sum_terms(e.left) + [None]
+    if isinstance(e, ast.UnaryOp) and isinstance(e.op, ast.USub):
+        return [None]
+    return [e]
+
+
+def _positive_sum(terms) -> bool:
+    """Some term is a positive integer constant and none is a subtraction or a negative constant (the other terms
+    are sizes / lengths)."""
+    if any(t is None for t in terms):
+        return False
+    consts = [t.value for t in terms if isinstance(t, ast.Constant) and isinstance(t.value, int) and not isinstance(t.value, bool)]
+    return any(c > 0 for c in consts) and all(c >= 0 for c in consts)
+
+
+def _main_loops(fn: Fn):
+    """Outermost while loops of Registry.run (the inliner's do-once wrappers excluded) that consume tokens."""
+    def has_pop(n):
+        return any(isinstance(x, ast.Call) and isinstance(x.func, ast.Attribute) and x.func.attr == "pop_tokens" for x in ast.walk(n))
+    cands = [n for n in walk_fn(fn.node) if isinstance(n, ast.While) and not getattr(n, "_sa_inline", None) and has_pop(n)]
+    return sorted([n for n in cands if not any(o is not n and _inside(n, o) for o in cands)], key=lambda n: n.lineno)
+
+
 def rule_progress(run, prog):
     run.rule("R-5.5", "MPT progress: each iteration of Registry.run's main loop reaches context.pop_tokens(1 | the matched "
              "primary's count); no Primary.run returns (True, 0); every sub-parser pops before it returns a token; the "
              "bad-lexeme and splice paths of get_next_token advance the position", floor=25)
     rn = prog.fn("registry.py::Registry.run")
     g = cfg_of(rn)
-    loops = [n for n in walk_fn(rn.node) if isinstance(n, ast.While) and "tokens" in text(n.test)]
-    run.require(len(loops) == 1, "anchor vanished: main while loop of Registry.run")
-    loop = loops[0]
-    tnode = g.nid(loop.test)
-    pops = []
-    for n in ast.walk(loop):
-        if isinstance(n, ast.Call) and isinstance(n.func, ast.Attribute) and n.func.attr == "pop_tokens":
-            pops.append(n)
-    pop_nodes = {_cfg_node_of_expr(g, p) for p in pops}
-    body_first = [m for m, lab in g.succ[tnode] if lab == "T"]
-    stuck = any(m == tnode or g.can_reach(m, tnode, avoid=pop_nodes, follow_exc=False) for m in body_first if m not in pop_nodes)
-    run.ob("R-5.5", f"{rn.key}::iteration-pops", bool(pops) and not stuck,
-           "an iteration of the main loop can come back to the loop test without consuming a token", loop,
-           pop_calls=[text(p) for p in pops])
-    for p in pops:
-        a = p.args[0] if p.args else None
-        ok = False
-        if isinstance(a, ast.Constant) and isinstance(a.value, int) and a.value >= 1:
-            ok = True
-        elif isinstance(a, ast.Name):
-            # second component of `ret, jump = self.run_rules(...)`
-            for n in ast.walk(loop):
-                if isinstance(n, ast.Assign) and isinstance(n.targets[0], ast.Tuple) and len(n.targets[0].elts) == 2 \
-                        and isinstance(n.targets[0].elts[1], ast.Name) and n.targets[0].elts[1].id == a.id \
-                        and text(n.value).startswith("self.run_rules"):
-                    ok = True
+    loops = _main_loops(rn)
+    run.require(len(loops) >= 1, "anchor vanished: main while loop of Registry.run")
+    all_pops = []
+    for li, loop in enumerate(loops):
+        tnode = g.nid(loop.test)
+        pops = []
+        for n in ast.walk(loop):
+            if isinstance(n, ast.Call) and isinstance(n.func, ast.Attribute) and n.func.attr == "pop_tokens":
+                pops.append(n)
+        pops.sort(key=lambda p: (p.lineno, p.col_offset))
+        all_pops += [(loop, p) for p in pops]
+        pop_nodes = {_cfg_node_of_expr(g, p) for p in pops}
+        body_first = [m for m, lab in g.succ[tnode] if lab == "T"]
+        stuck = any(m == tnode or flag_can_reach(g, rn, m, tnode, avoid=pop_nodes, follow_exc=False)
+                    for m in body_first if m not in pop_nodes)
+        run.ob("R-5.5", f"{rn.key}::iteration-pops" + ("" if li == 0 else f"#{li + 1}"), bool(pops) and not stuck,
+               "an iteration of the main loop can come back to the loop test without consuming a token", loop,
+               pop_calls=[text(p) for p in pops])
+    for loop, p in all_pops:
+        a = p.args[0] if p.args else (p.keywords[0].value if p.keywords else None)
+        ok = a is not None and _positive_count(rn, g, a, _cfg_node_of_expr(g, p))
         run.ob("R-5.5", f"{rn.key}::pop_tokens[{text(a) if a is not None else ''}]", ok,
                "pop_tokens is called with something other than 1 or the matched primary's token count", p)
-    # pop_tokens slices from the front
+    # pop_tokens drops a prefix of exactly `stop` tokens (interpreter; syntactic form as a fall-back)
     pt = prog.fn("context.py::Context.pop_tokens")
-    ok = any(isinstance(n, ast.Assign) and text(n.targets[0]) == "self.tokens" and isinstance(n.value, ast.Subscript)
-             and text(n.value.value) == "self.tokens" and isinstance(n.value.slice, ast.Slice)
-             and n.value.slice.lower is not None and n.value.slice.upper is None for n in walk_fn(pt.node))
+    ok = _pop_tokens_drops_prefix(prog, pt)
     run.ob("R-5.5", f"{pt.key}::front-slice", ok, "Context.pop_tokens no longer drops a prefix of self.tokens", pt.node)
     # (c) no Primary.run returns (True, 0)
     for c in registry_model(prog).primaries:
         m = prog.method(c.name, "run")
         if m is None:
             continue
-        bad = [n for n in walk_fn(m.node) if isinstance(n, ast.Return) and isinstance(n.value, ast.Tuple)
-               and len(n.value.elts) == 2 and isinstance(n.value.elts[0], ast.Constant) and n.value.elts[0].value is True
-               and isinstance(n.value.elts[1], ast.Constant) and n.value.elts[1].value == 0]
+        bad = []
+        for n in walk_fn(m.node):
+            if not isinstance(n, ast.Return) or n.value is None:
+                continue
+            for v in _tuple_displays(m, n.value):
+                if len(v.elts) != 2:
+                    continue
+                first, second = const_values(m, v.elts[0]), const_values(m, v.elts[1])
+                if first is not None and second is not None and any(x is True for x in first) \
+                        and any(isinstance(x, int) and not isinstance(x, bool) and x <= 0 for x in second):
+                    bad.append(n)
         run.ob("R-5.5", f"{m.key}::no-true-zero", not bad,
                "a primary reports a match that consumes zero tokens: the main loop would not advance", bad[0] if bad else m.node)
     # (b) lexer: every token-returning path passed through a pop
@@ -1003,13 +2094,23 @@ def rule_progress(run, prog):
     adv = set()
     for n in walk_fn(gnt.node):
         if isinstance(n, ast.AugAssign) and isinstance(n.op, ast.Add) and text(n.target).endswith("__pos"):
-            adv.add(gg.nid(n))
+            if _positive_sum(_sum_terms(n.value)):
+                adv.add(gg.nid(n))
+        elif isinstance(n, ast.Assign) and len(n.targets) == 1 and isinstance(n.targets[0], ast.Attribute) \
+                and n.targets[0].attr.endswith("__pos"):
+            terms = _sum_terms(n.value)             # self.__pos = self.__pos + k
+            own = [t_ for t_ in terms if t_ is not None and text(t_) == text(n.targets[0])]
+            if len(own) == 1 and _positive_sum([t_ for t_ in terms if t_ is not own[0]]):
+                adv.add(gg.nid(n))
+    for pc in _pop_sites(gnt):
+        adv.add(_cfg_node_of_expr(gg, pc))      # a pop consumes at least one character (or raises: R-5.2)
+    adv.discard(None)
     whiles = [n for n in walk_fn(gnt.node) if isinstance(n, ast.While)]
     run.require(whiles, "anchor vanished: loops of get_next_token")
     for w in whiles:
         t = gg.nid(w.test)
         firsts = [m for m, lab in gg.succ[t] if lab == "T"]
-        stuck = any(m == t or gg.can_reach(m, t, avoid=adv, follow_exc=False) for m in firsts if m not in adv)
+        stuck = any(m == t or flag_can_reach(gg, gnt, m, t, avoid=adv, follow_exc=False) for m in firsts if m not in adv)
         run.ob("R-5.5", f"{gnt.key}::while[{text(w.test, 30)}]::advances", not stuck,
                "a loop of get_next_token can iterate without advancing the source position", w)
     # no self-recursion left in get_next_token (one frame per bad lexeme)
@@ -1169,14 +2270,27 @@ def _module_constants(prog, cls) -> Dict[str, object]:
 # =========================================================================== R-5.7
 def rule_dictkeys(run, prog):
     run.rule("R-5.7", "TABLE: every subscript on a folded module-level lexer table has a key value set (from the guards "
-             "that dominate it) included in the table's keys", floor=8)
+             "that dominate it) included in the table's keys", floor=6)
     lexmod = prog.mod("lexer/lexer.py")
     tables = {}
     for name in ("operators", "brackets", "keywords", "trigraphs", "digraphs"):
         try:
             tables[name] = fold_name(name, lexmod)
-        except Unknown as e:
-            raise AnalysisError(f"lexer table {name} does not fold: {e}")
+        except Unknown:
+            pass                      # renamed / merged: the generic discovery below finds what is subscripted
+    # every other module-level name of the lexer (own or imported) that folds to a dict and is subscripted
+    for fn in prog.functions_in("lexer/lexer.py"):
+        for n in walk_fn(fn.node):
+            if isinstance(n, ast.Subscript) and isinstance(n.value, ast.Name) and isinstance(n.ctx, ast.Load) \
+                    and n.value.id not in tables and (n.value.id in lexmod.assigns or n.value.id in lexmod.imports) \
+                    and n.value.id not in _all_bindings(fn):
+                try:
+                    v = fold_name(n.value.id, lexmod)
+                except (Unknown, RecursionError):
+                    continue
+                if isinstance(v, dict):
+                    tables[n.value.id] = v
+    run.require(len(tables) >= 3, f"only {len(tables)} constant lexer tables found (anchor vanished: operators / brackets / keywords ...)")
     n_sub = 0
     for fn in prog.functions_in("lexer/lexer.py"):
         for n in walk_fn(fn.node):
@@ -1185,6 +2299,10 @@ def rule_dictkeys(run, prog):
                 n_sub += 1
                 tname = n.value.id
                 keys = set(tables[tname])
+                if caught_at(prog, n, "KeyError", fn.node):
+                    run.ob("R-5.7", f"{fn.key}::{tname}[{text(n.slice, 40)}]", True, "inside try/except KeyError", n,
+                           key_set_size=None, protected=True)
+                    continue
                 vs = key_value_set(fn, n.slice, n, tables)
                 ok = vs is not None and vs <= keys
                 missing = sorted(vs - keys) if vs is not None else None
@@ -1192,7 +2310,7 @@ def rule_dictkeys(run, prog):
                        (f"key(s) {missing} can reach {tname}[...] but are not in the table: KeyError" if vs is not None
                         else f"cannot bound the keys reaching {tname}[...] from the dominating guards"),
                        n, key_set_size=(len(vs) if vs is not None else None))
-    run.require(n_sub >= 8, f"only {n_sub} table subscripts found in the lexer (floor 8)")
+    run.require(n_sub >= 6, f"only {n_sub} table subscripts found in the lexer (floor 6)")
 
 
 def key_value_set(fn: Fn, key_expr, at, tables) -> Optional[Set[str]]:
@@ -1232,6 +2350,19 @@ def _enclosing_true_conjuncts(at):
         if isinstance(a, ast.If) and any(cur is s for s in a.body):
             for c in conjuncts(a.test):
                 yield c
+        if isinstance(a, (ast.FunctionDef, ast.AsyncFunctionDef)):
+            break
+        cur = a
+
+
+def _enclosing_false_disjuncts(at):
+    """Disjuncts of the tests of the If statements whose *else* branch contains the node (each is false there)."""
+    from ..facts import disjuncts
+    cur = at
+    for a in ancestors(at):
+        if isinstance(a, ast.If) and any(cur is s for s in a.orelse):
+            for d in disjuncts(a.test):
+                yield d
         if isinstance(a, (ast.FunctionDef, ast.AsyncFunctionDef)):
             break
         cur = a
@@ -1287,8 +2418,15 @@ def name_value_set(fn: Fn, name: str, at, tables, _depth=0) -> Optional[Set[str]
                 s = expr_value_set(fn, R, at, tables, _depth + 1)
                 if s is not None:
                     cons.append(s)
-    for d in _early_exit_guards(fn, at):
+    import itertools
+    for d in itertools.chain(_early_exit_guards(fn, at), _enclosing_false_disjuncts(at)):
         # d is false here:  `name not in S` false  =>  name in S
+        if isinstance(d, ast.UnaryOp) and isinstance(d.op, ast.Not) and isinstance(d.operand, ast.Compare) \
+                and len(d.operand.ops) == 1 and isinstance(d.operand.ops[0], ast.In) and isinstance(d.operand.left, ast.Name) \
+                and d.operand.left.id == name:
+            s = _as_set(fn, d.operand.comparators[0], tables)          # `not (name in S)` false
+            if s is not None:
+                cons.append(s)
         if isinstance(d, ast.Compare) and len(d.ops) == 1 and isinstance(d.left, ast.Name) and d.left.id == name \
                 and isinstance(d.ops[0], ast.NotIn):
             s = _as_set(fn, d.comparators[0], tables)
@@ -1458,11 +2596,13 @@ def rule_local_list_index(run, prog):
              "L[k]) is dominated by evidence that it is long enough: a test on its truthiness / length on the path, or an "
              "early exit when it is empty", floor=6)
     n = 0
+    from .. import exceptions as exc_table
+    table_keys9 = {e["key"] for e in exc_table.TABLE if e["property"] == "C05" and e["rule"] == "R-5.9"}
     for fn in prog.fns:
         rel = fn.mod.rel
         if not (rel.startswith("rules/") or rel in ("context.py", "registry.py")):
             continue
-        locals_ = {t.id for x in walk_fn(fn.node) if isinstance(x, ast.Assign) and isinstance(x.value, ast.List) and not x.value.elts
+        locals_ = {t.id for x in walk_fn(fn.node) if isinstance(x, ast.Assign) and _is_empty_list(x.value)
                    for t in x.targets if isinstance(t, ast.Name)}
         if not locals_:
             continue
@@ -1474,10 +2614,102 @@ def rule_local_list_index(run, prog):
                     continue
                 n += 1
                 ev = _length_evidence(fn, L, x)
-                run.ob("R-5.9", f"{fn.key}::index[{text(x, 30)}]", ev is not None,
+                if ev is None and caught_at(prog, x, "IndexError", fn.node):
+                    ev = "inside try/except IndexError"
+                key9 = f"{fn.key}::index[{text(x, 30)}]"
+                if ev is None and key9 not in table_keys9:
+                    # a renamed list keeps the key under which the exception table knows the construct
+                    shape = re.sub(r"^\w+", "L", text(x, 30))
+                    for tk in sorted(table_keys9):
+                        if tk.startswith(fn.key + "::index[") and re.sub(r"^\w+", "L", tk[len(fn.key) + 8:-1]) == shape:
+                            key9 = tk
+                            break
+                run.ob("R-5.9", key9, ev is not None,
                        f"`{text(x)}`: the list `{L}` starts empty and nothing on the path shows that it has been filled: "
                        f"IndexError traceback on input for which no element was collected", x, evidence=ev)
     run.require(n >= 6, f"only {n} positional accesses to local lists found (floor 6)")
+
+
+def _is_empty_list(v) -> bool:
+    return (isinstance(v, ast.List) and not v.elts) or \
+        (isinstance(v, ast.Call) and isinstance(v.func, ast.Name) and v.func.id == "list" and not v.args and not v.keywords)
+
+
+def validate_var_declaration_ids(prog) -> bool:
+    """IsVarDeclaration.var_declaration: the access L[-1] to the local list of identifier tokens follows
+    `if <flag> is False or ...: return`; the flag (a parameter whose default is False and that no call site passes)
+    only becomes True in suites that also append to L.  The names of the list and of the flag are discovered."""
+    fn = prog.method("IsVarDeclaration", "var_declaration")
+    if fn is None:
+        return False
+    from ..facts import disjuncts
+    lists = {t.id for x in walk_fn(fn.node) if isinstance(x, ast.Assign) and _is_empty_list(x.value)
+             for t in x.targets if isinstance(t, ast.Name)}
+    accesses = [x for x in walk_fn(fn.node) if isinstance(x, ast.Subscript) and isinstance(x.ctx, ast.Load)
+                and isinstance(x.value, ast.Name) and x.value.id in lists and not isinstance(x.slice, ast.Slice)
+                and _length_evidence(fn, x.value.id, x) is None]
+    if len(accesses) != 1:
+        return False
+    acc = accesses[0]
+    L = acc.value.id
+    # the early exit on the flag in front of the access
+    st = acc
+    while not isinstance(st, ast.stmt):
+        st = parent(st)
+    blk = parent(st)
+    body = next((getattr(blk, f) for f in ("body", "orelse", "finalbody") if any(x is st for x in (getattr(blk, f, None) or []))), None)
+    if body is None:
+        return False
+    flag = None
+    for s_ in body:
+        if s_ is st:
+            break
+        if isinstance(s_, ast.If) and not s_.orelse and s_.body and isinstance(s_.body[-1], ast.Return):
+            for d in disjuncts(s_.test):
+                if isinstance(d, ast.Compare) and len(d.ops) == 1 and isinstance(d.left, ast.Name) \
+                        and isinstance(d.comparators[0], ast.Constant) and d.comparators[0].value is False \
+                        and isinstance(d.ops[0], (ast.Is, ast.Eq)):
+                    flag = d.left.id
+                elif isinstance(d, ast.UnaryOp) and isinstance(d.op, ast.Not) and isinstance(d.operand, ast.Name):
+                    flag = d.operand.id
+    if flag is None:
+        return False
+    binds = _all_bindings(fn).get(flag, [])
+    sets = [b for b in binds if b[0] == "assign"]
+    if not sets or any(b[0] not in ("assign", "param") for b in binds):
+        return False
+    if any(not (isinstance(b[2], ast.Constant) and isinstance(b[2].value, bool)) or b[3] != () for b in sets):
+        return False
+
+    def appends(x) -> bool:
+        return any(isinstance(c, ast.Call) and isinstance(c.func, ast.Attribute) and c.func.attr in ("append", "extend", "insert")
+                   and isinstance(c.func.value, ast.Name) and c.func.value.id == L for c in ast.walk(x)) \
+            or any(isinstance(c, ast.AugAssign) and isinstance(c.target, ast.Name) and c.target.id == L for c in ast.walk(x))
+    for _, node, v, _ in sets:
+        if v.value is not True:
+            continue
+        blk2 = parent(node)
+        suite = next((getattr(blk2, f) for f in ("body", "orelse", "finalbody")
+                      if any(x is node for x in (getattr(blk2, f, None) or []))), [])
+        if not any(appends(x) for x in suite):
+            return False
+    if any(b[0] == "param" for b in binds):
+        a = fn.node.args
+        params = [x.arg for x in a.posonlyargs + a.args]
+        if flag not in params:
+            return False
+        idx = params.index(flag)
+        ndef = len(a.defaults)
+        di = idx - (len(params) - ndef)
+        if di < 0 or not (isinstance(a.defaults[di], ast.Constant) and a.defaults[di].value is False):
+            return False
+        for c in callgraph(prog).sites.get(fn.key, []):
+            if isinstance(c.node, ast.Call) and (len(c.node.args) > idx - 1 or any(k.arg == flag for k in c.node.keywords)):
+                return False
+    else:
+        if not any(b[2].value is False for b in sets):
+            return False
+    return True
 
 
 def trivially_dead_(node):
@@ -1490,7 +2722,7 @@ def _length_evidence(fn, L: str, at) -> Optional[str]:
 
     def nonempty_when_true(c) -> bool:
         t = text(c)
-        if t == L:
+        if t in (L, f"len({L})", f"bool({L})"):
             return True
         if isinstance(c, ast.Compare) and len(c.ops) == 1 and text(c.left) == f"len({L})":
             op, r = c.ops[0], c.comparators[0]
@@ -1538,6 +2770,11 @@ def _length_evidence(fn, L: str, at) -> Optional[str]:
                 for v in a.values[:pos]:
                     if (nonempty_when_true(v) if isinstance(a.op, ast.And) else nonempty_when_false(v)):
                         return f"earlier operand `{text(v, 40)}`"
+        if isinstance(a, ast.IfExp) and not any(y is cur for y in ast.walk(a.test)):
+            if any(y is at for y in ast.walk(a.body)) and any(nonempty_when_true(c) for c in conjuncts(a.test)):
+                return f"conditional expression on `{text(a.test, 40)}`"
+            if any(y is at for y in ast.walk(a.orelse)) and any(nonempty_when_false(d) for d in disjuncts(a.test)):
+                return f"else arm of conditional expression on `{text(a.test, 40)}`"
         if isinstance(a, (ast.If, ast.While)) and not any(y is cur for y in ast.walk(a.test)):
             in_body = any(any(y is at for y in ast.walk(s_)) for s_ in a.body)
             if in_body and any(nonempty_when_true(c) for c in conjuncts(a.test)):
